@@ -8,6 +8,7 @@ import inspect
 from json.encoder import JSONEncoder
 from os import unlink
 from tempfile import NamedTemporaryFile
+from itertools import islice, chain
 
 from petl.compat import PY2
 from petl.compat import pickle
@@ -288,7 +289,8 @@ def iterdicts(dicts, header, sample, missing):
     if header is None:
         # discover fields
         header = list()
-        peek, it = iterpeek(it, sample)
+        peek = list(islice(it, sample))
+        it = chain(peek, it)
         for o in peek:
             if hasattr(o, 'keys'):
                 header += [k for k in o.keys() if k not in header]
